@@ -178,8 +178,8 @@ def run_transforms(ctx: Ctx) -> None:
     for mod, cls, kw in cases:
         ci = prog.cls(mod, cls)
         for kind in ("parameter", "buffer", "callable"):
-            ops = ["data", "grid", "condition", "inverse", "inverse:update_buffers", "inverse:link", "inverse:link+update_buffers", "inv",
-                   "unlink", "link"]
+            ops = ["data", "grid", "grid:other-flag", "condition", "inverse", "inverse:update_buffers", "inverse:link",
+                   "inverse:link+update_buffers", "inv", "unlink", "link"]
             for op in ops:
                 fm = prog.find_method(ci, op.split(":")[0])
                 if fm is None:
@@ -198,6 +198,10 @@ def run_transforms(ctx: Ctx) -> None:
                             r = it.method(t, "data", env.sym(list(p.shape)))
                         elif op == "grid":
                             r = it.method(t, "grid", env.grid2)
+                        elif op == "grid:other-flag":
+                            # the refined grid with the other align_corners convention
+                            g3 = it.new(env.Grid, size=tuple(2 * n - 1 for n in env.size), spacing=Fraction(1, 2), align_corners=False)
+                            r = it.method(t, "grid", g3)
                         elif op == "condition":
                             r = it.method(t, "condition", Rat.atom("condX"))
                         elif op == "inverse":
@@ -234,7 +238,50 @@ def run_transforms(ctx: Ctx) -> None:
                 ctx.ob("T15.transform-accessor", f"{cls}:{kind}:{op}", ok, {"detail": detail[:160]})
                 if not ok:
                     # keyed by the defining method and the symptom, not by the concrete class: one defect, one finding
-                    ctx.report("T15.transform-accessor", fm, f"accessor={op} params={kind} symptom={symptom[0]}", detail[:300])
+                    # (variants of one accessor share the key: one defect, one finding)
+                    ctx.report("T15.transform-accessor", fm, f"accessor={op.split(':')[0] if op.startswith('grid') else op} params={kind} "
+                                                             f"symptom={symptom[0]}", detail[:300])
+
+    # composites: the functional accessors of a SequentialTransform must leave its member transforms as they were
+    Seq = prog.cls("deepali.spatial.composite", "SequentialTransform")
+    Tr = prog.cls("deepali.spatial.linear", "Translation")
+    DDF = prog.cls("deepali.spatial.nonrigid", "DisplacementFieldTransform")
+    for op in ("condition", "grid", "inverse"):
+        fm = prog.find_method(Seq, op)
+        ctx.fn(fm)
+
+        def thc(op=op):
+            env = TEnv(ctx, 2)
+            it = env.it
+            lin = it.new(Tr, env.grid, params=HostCallable([1, 2], tag="tnet"))
+            ddf = it.new(DDF, env.grid, params=False)
+            env.randomize(ddf)
+            seq = it.new(Seq, lin, ddf)
+            it.method(seq, "condition_", Rat.atom("c0"))
+            it.method(seq, "update")
+            before = snapshot(seq)
+            try:
+                if op == "condition":
+                    r = it.method(seq, "condition", Rat.atom("c1"))
+                elif op == "grid":
+                    r = it.method(seq, "grid", env.grid2)
+                else:
+                    r = it.method(seq, "inverse")
+            except InterpError as e:
+                if e.exc_type in ("NotImplementedError", "ValueError", "ReadOnlyParameters"):
+                    return True, f"rejected: {e.exc_type}", ""
+                return False, f"SequentialTransform.{op}() raises {e}", f"raises:{e.exc_type}"
+            if r is seq:
+                return False, f"{op}() returned the receiver itself", "same-object"
+            after = snapshot(seq)
+            if after != before:
+                diff = _first_diff(before, after)
+                return False, f"SequentialTransform.{op}() changed the original composite (its member transforms): {diff}", "original-changed:members"
+            return True, "", ""
+        ok, detail, sym = thc()
+        ctx.ob("T15.transform-accessor", f"SequentialTransform:{op}", ok, {"detail": detail[:160]})
+        if not ok:
+            ctx.report("T15.transform-accessor", fm, f"accessor={op} composite=SequentialTransform symptom={sym}", detail[:300])
 
 
 def _first_diff(a, b, path="") -> str:
